@@ -1,17 +1,18 @@
 #!/bin/bash
 # tools/process_mutants.sh [-s SLOT] [-w WORKERS] CXX [mN] -- vet /tmp/wt-CXX/out/mN.* (once) and run all quick checks
 # against it; results in /verif/seeded/CXX-mN/{patch.diff,demo.rs,agent_notes.txt,vet.txt,checks.txt}
-SLOT=0; W=16
-while getopts "s:w:" o; do case $o in s) SLOT=$OPTARG;; w) W=$OPTARG;; esac; done; shift $((OPTIND-1))
+SLOT=0; W=16; SRC=/tmp/wt-; TAG=""
+while getopts "s:w:r" o; do case $o in s) SLOT=$OPTARG;; w) W=$OPTARG;; r) SRC=/tmp/r2-; TAG=r2;; esac; done; shift $((OPTIND-1))
 P="$1"; ONLY="$2"
-for d in /tmp/wt-$P/out/m*.diff /verif/seeded/$P-m*/patch.diff; do
+for d in $SRC$P/out/m*.diff /verif/seeded/$P-${TAG}m*/patch.diff; do
   [ -f "$d" ] || continue
-  case "$d" in /tmp/*) n=$(basename "$d" .diff) ;; *) n=$(basename "$(dirname "$d")" | sed "s/^$P-//") ;; esac
+  case "$d" in /tmp/*) n=$TAG$(basename "$d" .diff) ;; *) n=$(basename "$(dirname "$d")" | sed "s/^$P-//") ;; esac
   [ -n "$ONLY" ] && [ "$n" != "$ONLY" ] && continue
   S=/verif/seeded/$P-$n
   mkdir -p "$S"
   if [ ! -f "$S/patch.diff" ]; then
-    cp "$d" "$S/patch.diff"; cp "/tmp/wt-$P/out/${n}_demo.rs" "$S/demo.rs" 2>/dev/null; cp "/tmp/wt-$P/out/$n.txt" "$S/agent_notes.txt" 2>/dev/null
+    b=${n#$TAG}
+    cp "$d" "$S/patch.diff"; cp "$SRC$P/out/${b}_demo.rs" "$S/demo.rs" 2>/dev/null; cp "$SRC$P/out/$b.txt" "$S/agent_notes.txt" 2>/dev/null
   fi
   grep -q "CAUGHT-BY" "$S/checks.txt" 2>/dev/null && continue
   if ! grep -q "demo with change" "$S/vet.txt" 2>/dev/null; then
